@@ -4,7 +4,7 @@ import os
 import subprocess
 from . import core, util, dumps
 
-BASE = {"sp": "none", "ip": "interior", "phnum": "true", "phdr": "true", "vaddr": "le_base", "dyn": "terminated", "list": "acyclic", "name": "plain", "bytes": "elf", "app": "none"}
+BASE = {"sp": "none", "ip": "interior", "phnum": "true", "phdr": "true", "vaddr": "le_base", "dyn": "terminated", "list": "acyclic", "name": "plain", "bytes": "elf", "app": "none", "tmo": "finite", "umap": "none", "thr": "stoppable"}
 U64 = (1 << 64) - 1
 
 
@@ -39,6 +39,8 @@ def scenario_for(inp, k, workdir):
            "regions": [{"name": "code", "len": 8192, "exec": True, "below": "hole", "above": "hole"}],
            "file_maps": [{"path": path, "off": 0, "len": 0x3000, "exec": True, "delete": inp["name"] == "deleted"}],
            "linker_chain": chain}
+    if inp["thr"] == "vfork":
+        tgt["threads"].append({"mode": "vfork"})
     da = {"phnum": {"true": 3, "zero": 0, "larger": 100000, "huge": 1 << 60, "alloc_huge": 1 << 58}[inp["phnum"]],
           "phdr": {"true": {"chain": "phdr"}, "unmapped": "0x30000", "unaligned": {"chain": "phdr", "off": 3}}[inp["phdr"]]}
     w = {"blamed": {"slot": 0}, "direct_auxv": da}
@@ -46,12 +48,20 @@ def scenario_for(inp, k, workdir):
            "len_over_isize": [{"addr": {"region": "code"}, "len": (1 << 63)}], "len_64TiB": [{"addr": {"region": "code"}, "len": 1 << 46}]}.get(inp["app"])
     if app:
         w["app_memory"] = app
+    if inp["umap"] == "plain":
+        w["user_mappings"] = [{"start": {"region": "code"}, "size": 4096, "name": "/caller/supplied.so", "id_hex": "0102030405060708"}]
+    if inp["umap"] == "wraps":
+        w["user_mappings"] = [{"start": {"region": "code"}, "size": U64, "name": "/caller/beyond.so", "id_hex": "0102030405060708"}]   # "from here to the end of the address space", one byte too many
+    if inp["tmo"] == "zero":
+        w["stop_timeout_ms"] = 0
+    if inp["tmo"] == "max":
+        w["stop_timeout_max"] = True      # Duration::MAX: "wait for the stop however long it takes"
     sp = {"in_stack": {"thread_sp": 0}, "guard": {"thread_stack": 0, "off": -24}, "unmapped": "0x10000", "top_page": hex(U64 - 7), "misaligned": {"thread_sp": 0, "off": 3}, "zero": 0}
     ip = {"interior": {"region": "code", "off": 300}, "first_bytes": {"region_map": "code", "off": 5}, "last_bytes": {"region_map_end": "code", "off": -3},
           "unmapped": "0x20000", "zero": 0, "max": hex(U64)}
     if inp["sp"] != "none" or inp["ip"] != "interior":
         w["crash_context"] = {"sp": sp.get(inp["sp"], {"thread_sp": 0}), "ip": ip[inp["ip"]]}
-    scn = {"id": f"tot/{k}", "target": tgt, "writer": w, "timeout_ms": 6000, "input": inp, "watch": [path] if inp["name"] == "dev" else []}
+    scn = {"id": f"tot/{k}", "target": tgt, "writer": w, "timeout_ms": 3000 if inp["thr"] == "vfork" else 6000, "input": inp, "watch": [path] if inp["name"] == "dev" else []}
     if inp["phnum"] == "zero":
         # an unset count is completed from /proc/<pid>/auxv: the real program headers of the target are used
         da["phdr"] = 0
@@ -60,7 +70,9 @@ def scenario_for(inp, k, workdir):
 
 def c02(ck):
     quick = ck.tier == "quick"
-    util.mc_design(ck, "MC_Totality", "MC_Totality", "every input that differs from a benign base in at most two of nine dimensions (crash SP/IP class, AT_PHNUM/AT_PHDR class, PT_LOAD vaddr, dynamic section, link_map list shape, mapped-file name and content class) through the steps of a dump; invariants Total, NoDevOpen, WalkBounded; liveness Terminates (the link_map walk)",
+    util.mc_design(ck, "MC_Totality", "MC_Totality_vfork", "the same steps for targets with a thread sleeping in vfork(): the wait for that thread's stop (known finding D22: it has no bound)",
+                   workers=2, timeout=600)
+    util.mc_design(ck, "MC_Totality", "MC_Totality", "every input that differs from a benign base in at most two of thirteen dimensions (a thread in vfork(), caller's stop timeout, caller-supplied mapping, requested memory region, crash SP/IP class, AT_PHNUM/AT_PHDR class, PT_LOAD vaddr, dynamic section, link_map list shape, mapped-file name and content class) through the steps of a dump; invariants Total, NoDevOpen, WalkBounded; liveness Terminates (the link_map walk)",
                    workers=4, timeout=900)
     mc = core.run_tlc("MC_Totality", "MC_Totality_export", workers=4, timeout=900)
     inputs = mc["printed"].get("REPLAY", [])
@@ -71,6 +83,9 @@ def c02(ck):
     rnd = random.Random(ck.seed)
     singles = [i for i in inputs if sum(1 for d in BASE if i[d] != BASE[d]) <= 1]
     pairs = [i for i in inputs if sum(1 for d in BASE if i[d] != BASE[d]) == 2]
+    # every dump of a target with a thread in vfork() runs into its time budget (finding D22): the single and a few pairs are enough
+    vf = [i for i in pairs if i["thr"] == "vfork"]
+    pairs = [i for i in pairs if i["thr"] != "vfork"] + rnd.sample(vf, 2 if quick else 6)
     must = [i for i in pairs if i["name"] == "dev" and i["bytes"] != "elf"]          # a file under /dev whose build id cannot be read from memory
     slow = [i for i in pairs if i["list"] in ("cyclic", "selfloop")]
     rest = [i for i in pairs if i not in must and i not in slow]
@@ -90,7 +105,7 @@ def c02(ck):
     for r in runs:
         inp = r["scn"]["input"]
         d = r["dumps"][0] if r["dumps"] else {}
-        cls = next((f"{dim}={inp[dim]}" for dim in BASE if inp[dim] != BASE[dim]), "base")
+        cls = "thr=vfork" if inp["thr"] == "vfork" else next((f"{dim}={inp[dim]}" for dim in BASE if inp[dim] != BASE[dim]), "base")
         _, paths = dumps.flatten_soft_errors(d.get("soft_errors_raw", "")) if d.get("outcome") == "ok" else (False, [])
         end = r["end"] or {}
         evs.append({"ev": "dump", "origin": r["id"], "input": inp, "class": cls, "worker": end.get("worker", "?"), "outcome": d.get("outcome", "none"),
